@@ -72,6 +72,25 @@ theorem run_root (ops : List ESOp) : ∀ s : EState, (s.run ops).root = s.root :
           · split <;> rfl
     | endRound => rfl
 
+theorem run_single (ops : List ESOp) : ∀ s : EState, (s.run ops).single = s.single := by
+  induction ops with
+  | nil => intro s; rfl
+  | cons op ops ih =>
+    intro s
+    show ((s.step op).run ops).single = s.single
+    rw [ih]
+    cases op with
+    | refine pos e dims =>
+      simp only [EState.step, EState.refine]
+      split
+      · rfl
+      · split
+        · rfl
+        · split
+          · rfl
+          · split <;> rfl
+    | endRound => rfl
+
 /-! ## clause 2: the leaves tile the domain, for every refinement history -/
 
 /-- **the leaves of the refinement tree tile the domain** after every history -/
@@ -117,27 +136,7 @@ theorem assign_unique (dim : Nat) (lmin lmax nrbe : Int) (version : Nat) (auto :
   have hr : (reach dim lmin lmax nrbe version auto false root ops).root = root := by
     unfold reach; rw [run_root]; rfl
   have hs : (reach dim lmin lmax nrbe version auto false root ops).single = false := by
-    unfold reach
-    have : ∀ (ops : List ESOp) (s : EState), (s.run ops).single = s.single := by
-      intro ops
-      induction ops with
-      | nil => intro s; rfl
-      | cons op ops ih =>
-        intro s
-        show ((s.step op).run ops).single = s.single
-        rw [ih]
-        cases op with
-        | refine pos e dims =>
-          simp only [EState.step, EState.refine]
-          split
-          · rfl
-          · split
-            · rfl
-            · split
-              · rfl
-              · split <;> rfl
-        | endRound => rfl
-    rw [this]; rfl
+    unfold reach; rw [run_single]; rfl
   have hcover := h.tops.cover x (by rw [hr]; exact hx)
   obtain ⟨c, hc, hcx⟩ := hcover
   obtain ⟨t, ht, rfl⟩ := List.mem_map.1 hc
@@ -145,6 +144,34 @@ theorem assign_unique (dim : Nat) (lmin lmax nrbe : Int) (version : Nat) (auto :
   rw [hs]
   simp only [Bool.false_eq_true, if_false]
   exact assign_spec x _ h.wf ⟨t, ht, hcx⟩
+
+/-- the list form `get_points_in_areas_recursive(root_cell, points)` (without `split_single_dim`): every offered
+point of the domain is in the point list of some leaf that contains it, and all leaves whose lists contain it have
+the same box — every evaluation point is handed to exactly one leaf -/
+theorem assign_lists_unique (dim : Nat) (lmin lmax nrbe : Int) (version : Nat) (auto : Bool) (root : Box)
+    (ops : List ESOp) (hd : 1 ≤ dim) (hp : Proper root) (hl : root.length = dim) (pts : List EPt) (p : EPt)
+    (hpp : p ∈ pts) (hx : boxContains root p = true) :
+    (∃ a ps, (a, ps) ∈ (reach dim lmin lmax nrbe version auto false root ops).forest.assignAll pts ∧ p ∈ ps ∧
+        boxContains a.box p = true) ∧
+    (∀ a ps a' ps', (a, ps) ∈ (reach dim lmin lmax nrbe version auto false root ops).forest.assignAll pts → p ∈ ps →
+        (a', ps') ∈ (reach dim lmin lmax nrbe version auto false root ops).forest.assignAll pts → p ∈ ps' →
+        a.box = a'.box) := by
+  obtain ⟨a, h1, _, h3⟩ := assign_unique dim lmin lmax nrbe version auto root ops hd hp hl p hx
+  have hs : (reach dim lmin lmax nrbe version auto false root ops).single = false := by
+    unfold reach; rw [run_single]; rfl
+  unfold EState.assign at h1
+  rw [hs] at h1
+  simp only [Bool.false_eq_true, if_false] at h1
+  constructor
+  · obtain ⟨ps, k1, k2⟩ := assignAll_complete _ pts p a hpp h1
+    exact ⟨a, ps, k1, k2, h3⟩
+  · intro b ps b' ps' k1 k2 k1' k2'
+    obtain ⟨_, c, hc, hcb⟩ := assignAll_spec _ pts b p ⟨ps, k1, k2⟩
+    obtain ⟨_, c', hc', hcb'⟩ := assignAll_spec _ pts b' p ⟨ps', k1', k2'⟩
+    rw [hc] at hc'
+    simp only [Option.some.injEq] at hc'
+    subst hc'
+    rw [← hcb, ← hcb']
 
 /-- a point in the interior of a leaf is assigned to that leaf (so the assignment agrees with the geometry
 wherever the geometry decides) -/
